@@ -30,6 +30,7 @@ LEVEL = 'proof'
 logging.disable(logging.CRITICAL)
 
 REQUEST_BUDGET = 400          # adversarial runs: more requests than this is "does not terminate"
+MODEL_FUEL = 4000             # fuel for model evaluation (C12_fuel_irrelevant: any sufficient fuel gives the same result)
 ROUNDS = 400000               # event-loop rounds per awaited operation
 
 
@@ -70,6 +71,11 @@ def value_bytes(vlen, salt):
     return bytes((i * 7 + salt * 13 + (i >> 8)) % 256 for i in range(vlen))
 
 
+def coq_value(vlen, salt):
+    """the same bytes as a Coq term (long list literals are slow to parse)"""
+    return f'(map (fun i => (i * 7 + {salt * 13} + i / 256) mod 256) (map Z.of_nat (seq 0 {vlen})))'
+
+
 # ============================================================================= in-memory ATT world
 class FakeL2:
     def __init__(self):
@@ -82,6 +88,10 @@ class FakeDevice:
     def __init__(self):
         self.l2cap_channel_manager = FakeL2()
         self.routes = {}
+        self.connections = {}
+
+    def lookup_connection(self, handle):
+        return self.connections.get(handle)
 
     def send_l2cap_pdu(self, handle, cid, pdu):
         self.routes[handle](bytes(pdu))
@@ -131,6 +141,7 @@ class World:
             h = 0x40 + i
             sconn = FakeConn(h, None)
             self.sconns.append(sconn)
+            self.dev.connections[h] = sconn
 
             def c2s(pdu, i=i, sconn=sconn):
                 if pdu[0] == 0x1E and self.hold_confirm[i]:
@@ -567,17 +578,24 @@ def db_model_expr(case):
     lay = layout(services)
     mtu = 23 if case['client_mtu'] is None else min(case['server_mtu'], case['client_mtu'])
     prim = [s for s in lay if s['spec']['primary']]
+    F = 'FUEL'
     seen, by_uuid = [], []
+
+    def by(u):
+        return f'outcome_obs (discover_service {F} (fun _ s => srv_find_by_type_value {mtu} db {u} s 65535))'
     for s in services:
         cu = canon_u(s['uuid'])
         if cu in seen or len(seen) >= 4:
             continue
         seen.append(cu)
-        by_uuid.append(f'outcome_obs (client_discover_service {mtu} db {coq_uuid(s["uuid"])})')
-    by_uuid.append(f'outcome_obs (client_discover_service {mtu} db (mkU 2 {0x18FF}))')
-    inc = [f'outcome_obs (client_discover_included {mtu} db {s["h"]} {s["end"]})' for s in prim]
-    chs = [f'outcome_obs (client_discover_characteristics {mtu} db {s["h"]} {s["end"]})' for s in prim]
-    dss = [f'outcome_obs (client_discover_descriptors {mtu} db {c["vh"]} {c["end"]})' for s in prim for c in s['chars']]
+        by_uuid.append(by(coq_uuid(s['uuid'])))
+    by_uuid.append(by(f'(mkU 2 {0x18FF})'))
+    inc = [f'outcome_obs (discover_included {F} (fun _ s => srv_read_by_type {mtu} db UUID_INCLUDE s {s["end"]}) {s["h"]} {s["end"]})'
+           for s in prim]
+    chs = [f'outcome_obs (discover_characteristics {F} (fun _ s => srv_read_by_type {mtu} db UUID_CHARACTERISTIC s {s["end"]}) '
+           f'{s["h"]} {s["end"]})' for s in prim]
+    dss = [f'outcome_obs (discover_descriptors {F} (fun _ s => srv_find_information {mtu} db s {c["end"]}) {c["vh"]} {c["end"]})'
+           for s in prim for c in s['chars']]
     wrs = []
     for wr in case['writes']:
         c = services[wr['svc']]['chars'][wr['chr']]
@@ -585,10 +603,12 @@ def db_model_expr(case):
                    f"[(7, repeat 1 {c['vlen']}%nat)] 7 (repeat 2 {wr['vlen']}%nat) in "
                    f"(match store_get 7 s' with Some v => Z.of_nat (List.length v) | None => -1 end, "
                    f"match r with WOk => 0 | WErr c => c | WSilent => -2 end))")
-    return (f'let ss := {coq_specs(services)} in let db := build ss in '
-            f'(map attr_obs db, (specs_ok ss, db_wf db), outcome_obs (client_discover_services {mtu} db), '
+    return (f'let FUEL := {MODEL_FUEL}%nat in let ss := {coq_specs(services)} in let db := build ss in '
+            f'(map attr_obs db, (specs_ok ss, db_wf db), '
+            f'outcome_obs (discover_services FUEL (fun _ s => srv_read_by_group {mtu} db UUID_PRIMARY s 65535)), '
             f'[{"; ".join(by_uuid)}], [{"; ".join(inc)}], [{"; ".join(chs)}], [{"; ".join(dss)}], '
-            f'outcome_obs (client_discover_attributes {mtu} db), [{"; ".join(wrs)}])')
+            f'outcome_obs (discover_attributes FUEL (fun _ s => srv_find_information {mtu} db s 65535)), '
+            f'[{"; ".join(wrs)}])')
 
 
 def mobs(o):
@@ -935,17 +955,17 @@ def adv_model_expr(case):
         return None
     sc = f'(scripted [{"; ".join(rs)}])'
     if proc == 'services':
-        call = f'discover_services (fuel_for 1) {sc}'
+        call = f'discover_services {MODEL_FUEL}%nat {sc}'
     elif proc == 'service':
-        call = f'discover_service (fuel_for 1) {sc}'
+        call = f'discover_service {MODEL_FUEL}%nat {sc}'
     elif proc == 'included':
-        call = f'discover_included (fuel_for {lo}) {sc} {lo} {hi}'
+        call = f'discover_included {MODEL_FUEL}%nat {sc} {lo} {hi}'
     elif proc == 'chars':
-        call = f'discover_characteristics (fuel_for {lo}) {sc} {lo} {hi}'
+        call = f'discover_characteristics {MODEL_FUEL}%nat {sc} {lo} {hi}'
     elif proc == 'descs':
-        call = f'discover_descriptors (fuel_for ({lo} + 1)) {sc} {lo} {hi}'
+        call = f'discover_descriptors {MODEL_FUEL}%nat {sc} {lo} {hi}'
     else:
-        call = f'discover_attributes (fuel_for 1) {sc}'
+        call = f'discover_attributes {MODEL_FUEL}%nat {sc}'
     return f'outcome_obs ({call})'
 
 
@@ -1208,7 +1228,7 @@ def notify_model_exprs(case, obs):
         order = [i for i in obs['order'] if i in subs] + [i for i in subs if i not in obs['order']]
         s = coq_list(order, lambda i: f'({i}, {coq_list(subs[i], lambda hv: f"({hv[0]}, {coq_list(list(hv[1]), coq_z)})")})')
         h = obs['handles'][op[2]]
-        v = coq_list(list(value_bytes(op[3], op[4])), coq_z)
+        v = coq_value(op[3], op[4])
         ind = 'true' if name.startswith('indicate') else 'false'
         if name.endswith('_all'):
             e = f'notify_or_indicate_subscribers {ind} ({mtu_of}) {s} {h} {v} false'
@@ -1484,15 +1504,15 @@ def run(ctx):
     rng = ctx.rng
     cases = load_corpus()
     ncorpus = len(cases)
-    for _ in range(ctx.n(50, 800)):
+    for _ in range(ctx.n(40, 600)):
         cases.append(gen_db_case(rng, ctx.quick()))
-    for _ in range(ctx.n(150, 3000)):
-        cases.append(gen_read_case(rng))
-    for _ in range(ctx.n(500, 12000)):
-        cases.append(gen_adv_case(rng))
     for _ in range(ctx.n(120, 2500)):
+        cases.append(gen_read_case(rng))
+    for _ in range(ctx.n(400, 8000)):
+        cases.append(gen_adv_case(rng))
+    for _ in range(ctx.n(100, 2000)):
         cases.append(gen_notify_case(rng))
-    for k in range(ctx.n(6, 60)):
+    for k in range(ctx.n(6, 40)):
         c = gen_db_case(rng, True)
         c['kind'] = 'link'
         c['eatt'] = True
@@ -1537,7 +1557,7 @@ def run(ctx):
                 exprs.append('[' + '; '.join(es) + ']')
                 owners.append((i, 'notify', idx))
         elif case['kind'] == 'read':
-            v = coq_list(list(value_bytes(case['vlen'], case['salt'])), coq_z)
+            v = coq_value(case['vlen'], case['salt'])
             exprs.append(f'routcome_obs (read_from_server {case["vlen"] + 1}%nat {obs["mtu"]} {v})')
             owners.append((i, 'read', None))
     mres = ctx.coq_eval(['Model.GattClient'], exprs, shard=ctx.n(120, 200))
